@@ -130,7 +130,8 @@ theorem c18_step_refines (junk : α) (fmt : Fmt) (file : List α) (st : St) (pos
     obtain ⟨hd0, hd1⟩ : 0 ≤ (pos : Int) + d ∧ (pos : Int) + d < file.length := hr
     have hk : ((pos : Int) + d).toNat < file.length := by omega
     subst h1
-    cases fmt <;> simp [step, specStep, seek, hk, Coupled, Nat.le_of_lt hk, Nat.min_eq_left (Nat.le_of_lt hk)]
+    have hneg : ¬ ((st.pos : Int) + d < 0) := by omega
+    cases fmt <;> simp [step, specStep, seek, hk, hneg, Coupled, Nat.le_of_lt hk, Nat.min_eq_left (Nat.le_of_lt hk)]
   | tell =>
     subst h1
     exact ⟨rfl, rfl, h2, h3⟩
